@@ -108,6 +108,11 @@ def main(argv=None):
     if args.replay:
         with open(args.replay) as f:
             doc = json.load(f)
+        flags = doc["case"].get("python_flags") if isinstance(doc.get("case"), dict) else None
+        if flags == "-O" and not sys.flags.optimize:
+            # the case was found with assert statements compiled away: replay it in such an interpreter
+            return subprocess.call([sys.executable, "-O", "-X", "faulthandler", "-m", "mc.main", what, "--replay", args.replay], cwd=VERIF)
+
         def replay_once():
             try:
                 with core.case_watchdog(core.CASE_TIMEOUT):
@@ -141,7 +146,49 @@ def main(argv=None):
     if hasattr(mod, "prepare"):
         mod.prepare(args.tier)
     total = core.run_legs(modname, tier_legs, args.tier, serial_legs=mod.META.get("serial_legs", ()))
+    if not sys.flags.optimize and os.environ.get("VERIF_OPTIMIZED_PASS", "on") != "off":
+        optimized_pass(what, args, mod, tier_legs, total)
     return core.finish(what, args.tier, seed, total, mod.META, t0, tier_legs)
+
+
+def optimized_pass(what, args, mod, tier_legs, total):
+    """Re-runs the enumeration legs (not the schedule explorations) in an interpreter started with -O, where `assert`
+    statements are compiled away: a property holds whatever the optimisation level.  Violations found there are reported by
+    this run under the signature '<signature>/under-python-O' (their replay files carry the interpreter flag)."""
+    from mc import core
+
+    legs = [l for l in tier_legs if l not in mod.META.get("serial_legs", ()) and l in mod.META.get("optimized_legs", tier_legs)]
+    if args.tier == "quick":
+        legs = [l for l in legs if l not in mod.META.get("optimized_skip_quick", ())]
+    if not legs:
+        return
+    out = os.path.join(VERIF, ".scratch", "optimized", what)
+    os.makedirs(out, exist_ok=True)
+    env = dict(os.environ, VERIF_OUT=out, VERIF_OPTIMIZED_PASS="off")
+    cmd = [sys.executable, "-O", "-X", "faulthandler", "-m", "mc.main", what, "--tier", args.tier, "--legs", ",".join(legs)]
+    if args.jobs:
+        cmd += ["--jobs", str(args.jobs)]
+    r = subprocess.run(cmd, cwd=VERIF, env=env, stdout=subprocess.PIPE, stderr=subprocess.STDOUT, universal_newlines=True)
+    total.notes["python_O_pass"] = {"legs": legs, "exit": r.returncode}
+    try:
+        with open(os.path.join(out, "evidence", "%s.json" % what)) as f:
+            total.notes["python_O_pass"]["evaluations"] = json.load(f)["coverage"]["evaluations"]
+    except Exception:
+        pass
+    for line in r.stdout.splitlines():
+        if line.startswith("VIOLATION property=") and "replay=" in line:
+            path = line.split("replay=", 1)[1].strip()
+            try:
+                with open(path) as f:
+                    doc = json.load(f)
+                case = dict(doc["case"], python_flags="-O") if isinstance(doc["case"], dict) else {"case": doc["case"], "python_flags": "-O"}
+                total.violation(doc["signature"] + "/under-python-O", case, "with assert statements compiled away (python -O): " + str(doc.get("observed", "")))
+            except Exception as ex:
+                total.error("optimized pass: cannot read %s: %r" % (path, ex))
+        elif line.startswith("HARNESS-ERROR"):
+            total.error("optimized pass: " + line[:1500])
+    if r.returncode not in (0, 1) and not any(l.startswith("HARNESS-ERROR") for l in r.stdout.splitlines()):
+        total.error("optimized pass exited with %s: %s" % (r.returncode, r.stdout[-1500:]))
 
 
 if __name__ == "__main__":
